@@ -540,7 +540,8 @@ func (a *act) cutLoop(li *loopInfo, pre *State, reach Term) (*State, Term) {
 	st := pre.clone()
 	st.known = nil
 	log := e.cur.log
-	for k, leaves := range li.mod.locals {
+	for _, k := range sortedLocalKeys(li.mod.locals) {
+		leaves := li.mod.locals[k]
 		v, ok := st.locals[k]
 		if !ok {
 			continue
@@ -565,10 +566,11 @@ func (a *act) cutLoop(li *loopInfo, pre *State, reach Term) (*State, Term) {
 		log.assert(app(SBool, ">=", na, pre.alloc))
 		st.alloc = na
 	}
-	for h := range li.mod.heaps {
+	for _, h := range sortedKeys(li.mod.heaps) {
 		e.heapReplace(st, h, log.fresh(h, e.cur.heapSorts[h]))
 	}
-	for k, leaves := range li.mod.locals {
+	for _, k := range sortedLocalKeys(li.mod.locals) {
+		leaves := li.mod.locals[k]
 		if v, ok := st.locals[k]; ok && leaves != nil {
 			e.assumeWF(v, st)
 		}
@@ -621,7 +623,8 @@ func (a *act) discover(li *loopInfo, pre *State) *modset {
 	head := &State{locals: map[any]Val{}, heap: map[string]Term{}, epoch: fmt.Sprintf("d%d.%d", c.discovery, li.head.Index)}
 	head.alloc = scratch.fresh("alloc", SInt)
 	head.epochBound = head.alloc
-	for k, v := range pre.locals {
+	for _, k := range sortedLocalKeys(pre.locals) {
+		v := pre.locals[k]
 		if v.T == nil {
 			head.locals[k] = v
 			continue
